@@ -20,6 +20,7 @@ import (
 	"github.com/NethermindEth/juno/db/memory"
 	"github.com/NethermindEth/juno/migration"
 	"github.com/NethermindEth/juno/migration/blocktransactions"
+	"github.com/NethermindEth/juno/migration/deprecated"
 	"github.com/NethermindEth/juno/migration/historyprunner"
 	"github.com/NethermindEth/juno/migration/state/headstate"
 	"github.com/NethermindEth/juno/migration/statedifflength"
@@ -115,6 +116,17 @@ func (fs fullSpec) build() (*memory.Database, error) {
 	d, err := fs.Chain.build()
 	if err != nil {
 		return nil, err
+	}
+	// the database went through all the deprecated (pre-registry) migrations: what they record on an
+	// empty database is what a node synced with the previous binary carries
+	empty := memory.New()
+	if err := deprecated.MigrateIfNeeded(context.Background(), empty, &networks.Sepolia, log.NewNopZapLogger()); err != nil {
+		return nil, fmt.Errorf("deprecated migrations on an empty database: %w", err)
+	}
+	for k, v := range dump(empty) {
+		if err := d.Put([]byte(k), []byte(v)); err != nil {
+			return nil, err
+		}
 	}
 	if !fs.Chain.NoHeight {
 		for b := uint64(0); b <= fs.Chain.height(); b++ {
@@ -368,6 +380,21 @@ func realFullStart(d *memory.Database, spec fullSpec, sp fullStart) fullOutcome 
 	reg, regS := fullRegistry(sp.Prune, sp.HeadState, func(i int, m migration.Migration) migration.Migration {
 		return &recMig{inner: m, idx: i, fr: fr}
 	})
+	// node/migration.go migrateIfNeeded: the deprecated migrations run first (a no-op here: the
+	// database is at their last version), then the schema runner
+	fr.mu.Lock()
+	fr.inMigrate = true // their commits are not runner ticks
+	fr.mu.Unlock()
+	depErr := deprecated.MigrateIfNeeded(ctx, store, &networks.Sepolia, log.NewNopZapLogger())
+	fr.mu.Lock()
+	fr.inMigrate = false
+	fr.mu.Unlock()
+	if depErr != nil {
+		out.open = "deprecated-failed:" + depErr.Error()
+		out.after = d
+		out.line = fmt.Sprintf("run %s %d %d", regS, never, never)
+		return out
+	}
 	runner, err := migration.NewRunner(reg, store, &networks.Sepolia, log.NewNopZapLogger())
 	if err != nil {
 		out.open = "refused"
@@ -535,6 +562,10 @@ func (h *harness) fullHistoryCase(hist fullHistory, family string) {
 			res.Violate(lib.Violation{Sig: "upgrade-hangs", What: fmt.Sprintf("start %d does not return", si), Replay: hist})
 			return
 		}
+		if strings.HasPrefix(o.open, "deprecated-failed") {
+			res.Violate(lib.Violation{Sig: "deprecated-migrations-fail-on-current-database", What: o.open, Replay: hist})
+			return
+		}
 		res.HitN("full-commits", o.commits)
 		switch {
 		case o.crashed:
@@ -547,7 +578,14 @@ func (h *harness) fullHistoryCase(hist fullHistory, family string) {
 		h.compareFullStart(hist, si, o)
 		btImgs = append(btImgs, o.btImgs...)
 		cur = o.after
-		if !o.crashed && o.result == "err" && sp.CancelAt == 0 {
+		if o.failedWrites > 0 && !o.crashed && o.result == "ok" {
+			res.Violate(lib.Violation{Sig: "upgrade-swallows-failed-write", What: fmt.Sprintf("start %d: %d writes failed and Run returned nil", si, o.failedWrites), Replay: hist})
+			return
+		}
+		if o.failedWrites > 0 {
+			res.Hit("full-start:write-failed")
+		}
+		if !o.crashed && o.result == "err" && sp.CancelAt == 0 && o.failedWrites == 0 {
 			msg := "an undisturbed start returns an error"
 			for i, ob := range o.obs {
 				if ob.errKind == "o" {
@@ -676,6 +714,9 @@ func (h *harness) fullAll() {
 		for k := 1; k <= tw.commits; k += step {
 			h.fullHistoryCase(fullHistory{Spec: fixed, Starts: []fullStart{{HeadState: true, Inflate: true, CrashAt: k}}}, "fixed-crash")
 			h.fullHistoryCase(fullHistory{Spec: fixed, Starts: []fullStart{{HeadState: true, Inflate: true, CancelAt: k}}}, "fixed-cancel")
+			if k%2 == 1 {
+				h.fullHistoryCase(fullHistory{Spec: fixed, Starts: []fullStart{{HeadState: true, Inflate: true, FailAt: k}}}, "fixed-writefail")
+			}
 		}
 	}
 	// the same with the history pruner enabled (dense chain: every block has transactions)
